@@ -59,7 +59,7 @@ def _sha(path):
 
 def _job(modname, ob, tier):
     """Run main analysis + reachability twin of one obligation; return raw results."""
-    budget = ob.budget(tier)
+    budget = ob.budget(tier) * float(os.environ.get("VF_BUDGET_SCALE", "1"))
     hard = budget * 1.6 + 90
     env = {"VERIF_TIER": tier}
     out = {}
